@@ -239,6 +239,32 @@ pub fn run(a: &HashMap<String, String>) -> (usize, usize) {
         }
         v
     };
+    // spawns that merge onto an inherited stream, from a thread that exits afterwards:
+    // the parent's own descriptors 1 and 2 must survive the thread
+    if a.get("kinds").is_none() {
+        for kinds in [['n', 'n', 'm'], ['n', 'm', 'n']].iter() {
+            let k = *kinds;
+            let before: Vec<_> = (0..3).map(|i| fstat_of(i)).collect();
+            let f = focus.clone();
+            let v = std::thread::spawn(move || one_case(k, false, &f, 0, 0)).join().unwrap_or_else(|_| vec!["ENV/thread-panicked".to_string()]);
+            let mut v = v;
+            let after: Vec<_> = (0..3).map(|i| fstat_of(i)).collect();
+            if after != before {
+                v.push("C05/parent-std-untouched: after a spawning thread exited, one of the parent's own standard streams is closed or changed".to_string());
+            }
+            v.retain(|m| focus.is_empty() || m.starts_with(&focus) || m.starts_with("ENV/"));
+            cases += 1;
+            let ks: String = k.iter().collect();
+            if v.is_empty() {
+                println!("CASE thread kinds={} OK", ks);
+            } else {
+                viols += 1;
+                for m in v {
+                    println!("CASE thread kinds={} VIOL {}", ks, m);
+                }
+            }
+        }
+    }
     for (k, sh) in list {
         let v = one_case(k, sh, &focus, earlier, mask);
         cases += 1;
